@@ -141,9 +141,10 @@ func genCase(t *rapid.T) Case {
 }
 
 var (
-	fxOnce sync.Once
-	procs  []*binfx.Proc
-	fxErr  error
+	fxOnce    sync.Once
+	procs     []*binfx.Proc
+	fxErr     error
+	fxRefused string // the fixture's own first call with the configured token was refused as Unauthenticated
 )
 
 func fixture() error {
@@ -181,6 +182,12 @@ func fixture() error {
 			ctx, cancel := context.WithTimeout(ctx, 10*time.Second)
 			_, err := regattapb.NewTablesClient(procs[i].Conn).Create(ctx, &regattapb.CreateTableRequest{Name: "base"})
 			cancel()
+			if status.Code(err) == codes.Unauthenticated {
+				// the very first call of the fixture already is a judged one: the configured token, presented exactly, must open the door
+				fxRefused = fmt.Sprintf("Tables.Create on process %d (leader started with --tables.token=%q) with authorization %q was refused: %v", i, c.tables, "Bearer "+c.tables, err)
+				fxErr = fmt.Errorf("%s", fxRefused)
+				return
+			}
 			if err != nil {
 				fxErr = fmt.Errorf("create base table on proc %d: %w", i, err)
 				return
@@ -309,6 +316,9 @@ var scratchMu sync.Mutex
 
 func run(c Case, o *vt.Obs) *vt.Failure {
 	if err := fixture(); err != nil {
+		if fxRefused != "" {
+			return vt.Failf(prop+"/valid-credential-rejected", 0, "%s", fxRefused)
+		}
 		vt.Inconclusive("C17 fixture: " + err.Error())
 		return nil
 	}
